@@ -1,5 +1,6 @@
 import OmbottModel.Py
 import OmbottModel.Py.Wsgi
+import OmbottModel.Py.IntLim
 import OmbottModel.Gen.Wsgi
 /-
 Model of `Ombott._handle`, `Ombott._cast`, `Ombott.wsgi`, `_closeiter`, `add_hook`/`emit`,
@@ -64,8 +65,8 @@ def statusSet : StatusArg → Option (Nat × Str)
       match splitWs st with
       | [] => none                                           -- `status.split()[0]`: IndexError
       | tok :: _ =>
-        match pyInt tok with
-        | none => none                                       -- ValueError
+        match pyIntLim tok with
+        | none => none                                       -- ValueError (also: more digits than `int` converts)
         | some c =>
           if 100 ≤ c ∧ c ≤ 999 then some (c.toNat, st) else none
     else none                                                -- 'String status line without a reason phrase.'
